@@ -31,6 +31,8 @@ def pick_qty(rng, base_value, b, sig=2, any_prefix=False, down=False):
     cands = ALL_PFX if any_prefix else NICE_PFX[b]
     ok = [p for p in cands if base_value == 0 or 1e-3 <= base_value / float(PFX[p][1]) < 1e5]
     p = rng.choice(ok or [''])
+    if p == 'u' and rng.random() < 0.3:
+        p = 'µ'       # the micro sign is the other spelling of the same prefix
     return {'v': dec(base_value / float(PFX[p][1]), sig, down), 'p': p, 'b': b}
 
 
@@ -641,7 +643,7 @@ def repeated_well_cases(seed):
         op = {'op': 'transfer', 'src': {'c': a}, 'dst': {'p': p, 'r': {'rect': [[0], [0, 1, 2]]}}, 'q': {'v': '90', 'p': 'u', 'b': 'L'}, 'osrc': g.fresh(), 'odst': g.fresh()}
         if not g.emit(op, 'repeat:load')['ok']:
             continue
-        p = op['odst']
+        a, p = op['osrc'], op['odst']
         if same:
             t = p
         for q in ('7', '11'):
@@ -650,6 +652,47 @@ def repeated_well_cases(seed):
             o = g.emit(op, 'repeat:list->list' + (':same' if same else ':two'))
             if o['ok']:
                 p, t = (op['odst'], op['odst']) if same else (op['osrc'], op['odst'])
+        # the container forms with a repeated well: dispensing into a list that names a well twice, pooling from one
+        d = g.fresh()
+        g.emit({'op': 'newc', 'out': d, 'name': g.name(), 'init': []}, 'repeat:tube')
+        op = {'op': 'transfer', 'src': {'c': a}, 'dst': {'p': t, 'r': {'list': dst_l}}, 'q': {'v': '6', 'p': 'u', 'b': 'L'},
+              'osrc': g.fresh(), 'odst': g.fresh()}
+        if g.emit(op, 'repeat:c->list')['ok']:
+            t = op['odst']
+            if same:
+                p = t
+        op = {'op': 'transfer', 'src': {'p': p, 'r': {'list': src_l}}, 'dst': {'c': d}, 'q': {'v': '4', 'p': 'u', 'b': 'L'}, 'osrc': g.fresh(), 'odst': g.fresh()}
+        g.emit(op, 'repeat:list->c')
+        out.append(g)
+    return out
+
+
+def long_decimal_cases(seed):
+    """directed: quantities written with many significant digits (computed volumes such as 1000 / 96 uL), dispensed into wells,
+    pooled from wells, moved between containers: the digits given are the digits used"""
+    import random
+    out = []
+    for i, (v1, v2) in enumerate([('10.416666666666666', '5.208333333333333'), ('33.333333333333336', '1.2345678901'), ('0.30000000000000004', '0.1234567')]):
+        g = Gen(random.Random(seed * 3001 + i), kinds=('Liquid', 'Solid', 'Liquid'))
+        a = g.new_container(nsub=2)
+        pl = g.new_plate(rows=2, cols=3, max_ul=1000)
+        if a is None or pl is None:
+            continue
+        whole = {'rect': [[0, 1], [0, 1, 2]]}
+        op = {'op': 'transfer', 'src': {'c': a}, 'dst': {'p': pl, 'r': whole}, 'q': {'v': v1, 'p': 'u', 'b': 'L'}, 'osrc': g.fresh(), 'odst': g.fresh()}
+        if not g.emit(op, 'digits:c->p')['ok']:
+            continue
+        a, pl = op['osrc'], op['odst']
+        d = g.fresh()
+        g.emit({'op': 'newc', 'out': d, 'name': g.name(), 'init': []}, 'digits:tube')
+        op = {'op': 'transfer', 'src': {'p': pl, 'r': whole}, 'dst': {'c': d}, 'q': {'v': v2, 'p': 'u', 'b': 'L'}, 'osrc': g.fresh(), 'odst': g.fresh()}
+        if g.emit(op, 'digits:p->c')['ok']:
+            pl, d = op['osrc'], op['odst']
+        op = {'op': 'transfer', 'src': {'p': pl, 'r': {'rect': [[0], [0, 1, 2]]}}, 'dst': {'p': pl, 'r': {'rect': [[1], [0, 1, 2]]}}, 'q': {'v': v2, 'p': 'u', 'b': 'L'},
+              'osrc': g.fresh(), 'odst': g.fresh()}
+        g.emit(op, 'digits:p->p')
+        op = {'op': 'transfer', 'src': {'c': a}, 'dst': {'c': d}, 'q': {'v': v1, 'p': 'u', 'b': 'L'}, 'osrc': g.fresh(), 'odst': g.fresh()}
+        g.emit(op, 'digits:c->c')
         out.append(g)
     return out
 
